@@ -29,6 +29,25 @@ import (
 var EmptyResultSetError = errors.New("empty result set")
 var DataEmpty = errors.New("data empty")
 
+// EncodeEndingLineBreak returns the line break that is written after an encoded view, in the character
+// encoding of that output. Only the formats that are written through a character encoder (CSV, TSV, LTSV and
+// Fixed-Length) in one of the UTF-16 encodings need other bytes than the line break itself, and no byte order
+// mark is repeated.
+func EncodeEndingLineBreak(lineBreak text.LineBreak, format option.Format, encoding text.Encoding) ([]byte, error) {
+	b := []byte(lineBreak.Value())
+
+	switch format {
+	case option.CSV, option.TSV, option.LTSV, option.FIXED:
+		switch encoding {
+		case text.UTF16, text.UTF16BE, text.UTF16BEM:
+			return text.Encode(b, text.UTF16BE)
+		case text.UTF16LE, text.UTF16LEM:
+			return text.Encode(b, text.UTF16LE)
+		}
+	}
+	return b, nil
+}
+
 func EncodeView(ctx context.Context, fp io.Writer, view *View, options option.ExportOptions, palette *color.Palette) (string, error) {
 	switch options.Format {
 	case option.FIXED:
